@@ -6,6 +6,7 @@ package main
 // the API server justifies has been freed.  No virtual time here (wall-clock sleeps only pace it).
 
 import (
+	"strings"
 	"time"
 
 	apiv3 "github.com/projectcalico/api/pkg/apis/projectcalico/v3"
@@ -114,8 +115,25 @@ func (w *world) liveRun() {
 	}
 	c.Count("live_runs", 1)
 
-	// Verdict: every pod the API server holds with a sandbox still has all its addresses.
+	// Verdict: every pod the API server holds with a sandbox still has all its addresses, and a
+	// host that Kubernetes does not orchestrate keeps its tunnel address while its Calico Node exists.
 	have := w.storeAllocs()
+	for _, bn := range w.bareNodes() {
+		found, had := false, false
+		for _, o := range w.ops {
+			had = had || (strings.Contains(o, "bare-node-create "+bn) && !strings.Contains(o, "[]"))
+		}
+		for _, a := range have {
+			found = found || (a.attrs[ipam.AttributeNode] == bn && a.attrs[ipam.AttributeType] != "")
+		}
+		if had {
+			c.Count("live_addresses_checked", 1)
+			if !found {
+				w.viol("live-address-freed", map[string]any{"node": bn}, "live run: the tunnel address of %s, whose Calico Node resource exists, is no longer allocated", bn)
+				return
+			}
+		}
+	}
 	for _, k := range sortedKeys(w.pods) {
 		p := w.pods[k]
 		if p.handle == "" || w.apiGetPod(k) == nil {
